@@ -55,6 +55,28 @@ CHECKS = {
         "passes(filter); repetition table keyed by the Zobrist hash only with +1/-1 discipline. Occurrence counting over histories is not "
         "decided (depends on C05 and inherent hash collisions).",
    note=TB + "Board::calc_outcome is opaque here (C07)."),
+ "C01": dict(cat="other", ref="DESIGN.md §3 C01",
+   technique="path rules and term-set normal forms over the legality filter (pre-filter, Checker::is_legal, attack test, wrappers)",
+   text="Static, necessary conditions only: the legal generators are the semilegal ones retained by the un-negated legality checker; the "
+        "pin pre-filter may answer Some(true) only when not in check, mover unpinned/non-king and not en passant, and never decides on "
+        "another path; Checker::is_legal evaluates the five-term reference attack test on the post-move occupancy with every captured man "
+        "masked out, for the king-move, en-passant and general paths; Move::validate is semi_validate plus the same checker. This decides "
+        "the structure of the legality filter and the agreement of the three legality routes, not the exactness of the semilegal move set.",
+   note=TB + "Tied to the single-blocker pin architecture of legal.rs: a different legality design needs new rules (stated in DESIGN.md)."),
+ "C07": dict(cat="other", ref="DESIGN.md §3 C07",
+   technique="decision-tree extraction and exhaustive evaluation on abstract inputs; emitter-set comparison over the resolved call graph",
+   text="Static: calc_outcome is evaluated on every abstract input (moves x check x insufficient x 10 clock values x side) and must return "
+        "the statement's outcome with its precedence; is_insufficient_material is compared with the statement on all 729 abstract material "
+        "configurations after recognising its six predicates; has_legal_moves must reach exactly the emitters of the full generator "
+        "minus castling and stop at the first legal move. Does not decide that the move set or occupancy sets are right (C01/C05/C06).",
+   note=TB + "Assumes: if castling is legal the king's single step is legal too (chess argument)."),
+ "C16": dict(cat="other", ref="DESIGN.md §3 C16",
+   technique="term-set normal form of the three sibling attack tests compared with the reference union of reverse lookups; table comparison",
+   text="Static: do_is_cell_attacked, do_cell_attackers (both colours) and Checker::is_attacked (both attacker colours) are reduced to "
+        "sets of AND-ed factors and must equal the five reference terms (piece set x attack set, pawn table colour inverted, sliders with "
+        "matching geometry), boolean forms true iff a term is non-empty; near-attack tables equal geometry; dispatch and check queries use "
+        "the right king and attacker colour. With C15 this is the whole structural content; the reverse-lookup lemma itself is assumed.",
+   note=TB + "Reverse-lookup lemma of chess geometry assumed; occupancy sets assumed consistent (C05)."),
 }
 
 NOT_YET = {}
